@@ -25,7 +25,7 @@ CHECKS = {
     ),
     "C14": dict(
         technique=ITER,
-        text="WellFormed(tree) is an invariant of IterProgram (TLC), the documented no-op calls are checked to return the identical object in the replay (action property NoOpIdentity in the model), and every real tree is judged WellFormed by TLC (TraceTree clause wf). The same holds in SqlProgram and MultiEngine (three engines, every preferred-engine option combination, no-op forms issued with options, engine-restricted functions nested in OR/NOT/containers must be refused). All 349 distinct relations built by the repository's own 82 tests (recorded by a pytest plugin, guard LSST_DAF_RELATION_VERIF) are judged by TLC as well, with a corrupt-one-field self-test showing the binding rejects.",
+        text="WellFormed(tree) is an invariant of IterProgram (TLC), the documented no-op calls are checked to return the identical object in the replay (action property NoOpIdentity in the model), and every real tree is judged WellFormed by TLC (TraceTree clause wf). The same holds in SqlProgram and MultiEngine (three engines, every preferred-engine option combination, no-op forms issued with options, engine-restricted functions nested in OR/NOT/containers must be refused). All 349 distinct relations built by the repository's own 82 tests (recorded by a pytest plugin, guard LSST_DAF_RELATION_VERIF) are judged by TLC as well, with a corrupt-one-field self-test showing the binding rejects. Behaviour spec IdJoin: join-identity relations of each of the three engines under 0-2 (thorough: 3) transfers, joined with a fixed operand of each engine on either side under every preferred-engine x backtrack x transfer option; TLC proves WF and content on the as-coded apply/backtrack rules, every state is replayed and the real tree judged by TLC (finding F28 - a transfer from an engine to itself - fixed, companion IdJoinKF28). IterProgram also runs with user-defined operations evaluated through apply_custom_unary_operation (IterCustom).",
         design_ref="§0.1, §6 C14",
         note="SQL engine + two iteration engines",
     ),
@@ -103,13 +103,13 @@ CHECKS = {
     ),
     "C10": dict(
         technique="TLA+ spec ProcHistory: action property WriteOnce and invariant EvalOnce on the abstract payload machine (TLC) + conformance replay (payload object identity across the history, TypeError on illegal attach, leaf iteration counts)",
-        text="On the ProcHistory state machine TLC checks [][payload set => unchanged]_vars and evals[m] <= 1 for every history. The replay performs each history for real and checks after every step that each materialization's payload, once set, stays the identical object; that attach_payload succeeds only on an empty marker and raises TypeError (changing nothing) on leaves, operation relations and filled markers; that payload rows equal the upstream's content; and that the counting leaf below the materializations is iterated no more often than evaluating every shared materialization's upstream once requires, over the whole history (process twice, execute after process, two branches sharing one materialization). Parts of the tree outside every materialization may be re-read by each evaluation of the history (bound = below + evaluations x outside). Reading a materialization's payload twice must not re-evaluate its upstream (checked with a lazy-transfer Processor).",
+        text="On the ProcHistory state machine TLC checks [][payload set => unchanged]_vars and evals[m] <= 1 for every history. The replay performs each history for real and checks after every step that each materialization's payload, once set, stays the identical object; that attach_payload succeeds only on an empty marker and raises TypeError (changing nothing) on leaves, operation relations and filled markers; that payload rows equal the upstream's content; and that the counting leaf below the materializations is iterated no more often than evaluating every shared materialization's upstream once requires, over the whole history (process twice, execute after process, two branches sharing one materialization). Parts of the tree outside every materialization may be re-read by each evaluation of the history (bound = below + evaluations x outside). Reading a materialization's payload twice must not re-evaluate its upstream (checked with a lazy-transfer Processor). Payload KINDS are part of the as-coded Processor model (a transfer payload obtained with materialize_as=None is not made for caching): invariant WrapSound demands that a materialization built ON THE TREE process() RETURNED never adopts such a payload (eval action 'wrap': processed.materialized('mw'), process again, read twice; finding F27, fixed, companion ProcKF27).",
         design_ref="§6 C10",
         note="iteration-sourced trees carry the counting leaf; SQL-sourced trees are checked for write-once/TypeError/content only; F8 excluded as for C07",
     ),
     "C04": dict(
         technique="TLA+ spec OpPairs (TLC exhaustive over operation pairs x targets) + real commute() answers judged by TLC (TracePairs)",
-        text="TLC enumerates every ordered pair (existing, new) over the operation menus (calculation, all projections, 10 predicates, deduplication, 9+21 sort-term lists, 7+45 slices) and proves the commutation law on the code-shaped Commute rules for all 85 targets (<=3 rows over a,b in 0..1); for every pair the REAL new.commute(existing) is called and its answer (first, second, done) is handed back to TLC, which interprets it with the reference semantics over every target: a sound answer that differs from the model passes (reported as drift), an unsound one is a violation. Companion configurations re-derive findings F2 (open), F10 and F6 (fixed) as TLC counterexamples. Mode 'joins': the NEW operation is a resolved partial join (five fixed operands incl. a deduplication projected onto one column, both sides, three predicates) over every existing operation; the real PartialJoin.commute answers are judged by TLC as multisets (a join has no row order of its own). Companions PairsKF20 / PairsKF21 re-derive the fixed findings F20 / F21.",
+        text="TLC enumerates every ordered pair (existing, new) over the operation menus (calculation, all projections, 10 predicates, deduplication, 9+21 sort-term lists, 7+45 slices) and proves the commutation law on the code-shaped Commute rules for all 85 targets (<=3 rows over a,b in 0..1); for every pair the REAL new.commute(existing) is called and its answer (first, second, done) is handed back to TLC, which interprets it with the reference semantics over every target: a sound answer that differs from the model passes (reported as drift), an unsound one is a violation. Companion configurations re-derive findings F2 (open), F10 and F6 (fixed) as TLC counterexamples. Mode 'joins': the NEW operation is a resolved partial join (five fixed operands incl. a deduplication projected onto one column, both sides, three predicates) over every existing operation; the real PartialJoin.commute answers are judged by TLC as multisets (a join has no row order of its own). Companions PairsKF20 / PairsKF21 re-derive the fixed findings F20 / F21. Mode 'joins' also contains Join().partial(fixed) as constructed (common columns not resolved yet; finding F26, fixed, companion PairsKF26). Mode 'custom': one side of every pair is a USER-DEFINED operation of the extension API (RowFilter / Reordering subclasses with truthful flags: reverse, stable sort by a+b, a>0, even-count, every-other), the other side ranges over the general menu; the real commute() answers of the library's operations about such operations (decided from their flags and columns_required only) are judged by TLC (finding F25, fixed, companion PairsKF25).",
         design_ref="§6 C04",
         note="bounded: schema {a,b}+calculated tags, values 0..1, targets <=3 rows; join pairs are covered by the multi-engine/SQL specs; tag reuse is out of contract and not generated",
     ),
